@@ -31,6 +31,11 @@ type Program struct {
 	GlobalsText string                 `json:"globalsText,omitempty"`
 	Data        map[string]interface{} `json:"data"`
 	Templates   []string               `json:"templates"` // qualified names the file defines
+	// JSOnly: the expected text is defined by the JavaScript library (a function or directive that
+	// the Go renderer lacks or spells differently); the Go rendering is not consulted.
+	JSOnly bool `json:"jsOnly,omitempty"`
+	// AnyOutput: only validity is judged (parses, templates defined, no ReferenceError when called).
+	AnyOutput bool `json:"anyOutput,omitempty"`
 	// Translation, when set, is the text the message catalogue gives for the
 	// file's only message (position msg-translation).
 	Translation *string `json:"translation,omitempty"`
@@ -820,4 +825,156 @@ func BuildShape(id int, kind string) (*Program, bool) {
 	}
 	sort.Strings(p.Templates)
 	return p, true
+}
+
+// ---- mutation gaps: every registered JS function and print directive --------
+
+// fnSample is a sample call of a Soy function and what JavaScript's String()
+// gives for its value.
+type fnSample struct {
+	call   string
+	expect string
+	truthy bool
+}
+
+// FuncSamples covers every entry of soyjs.Funcs (checked against the registry
+// at run time: a registered function without a sample is tool trouble, so a
+// new one cannot be forgotten).
+var FuncSamples = map[string]fnSample{
+	"isNonnull":     {"isNonnull($one)", "true", true},
+	"length":        {"length([1, 2, 3])", "3", true},
+	"keys":          {"length(keys(['a': 1, 'b': 2]))", "2", true},
+	"augmentMap":    {"length(keys(augmentMap(['a': 1], ['b': 2])))", "2", true},
+	"round":         {"round(round(2.26, 1) * 10)", "23", true},
+	"floor":         {"floor(2.5)", "2", true},
+	"ceiling":       {"ceiling(2.5)", "3", true},
+	"min":           {"min($one, 2)", "1", true},
+	"max":           {"max($one, 2)", "2", true},
+	"randomInt":     {"randomInt(1)", "0", false},
+	"strContains":   {"strContains('abc', 'b')", "true", true},
+	"hasData":       {"hasData()", "true", true},
+	"bidiGlobalDir": {"bidiGlobalDir()", "1", true},
+	"bidiDirAttr":   {"bidiDirAttr('abc')", "", false},
+	"bidiStartEdge": {"bidiStartEdge()", "left", true},
+	"bidiEndEdge":   {"bidiEndEdge()", "right", true},
+}
+
+// dirSample: value |name:args and what the JS library gives ("*" = any text).
+type dirSample struct {
+	value, args, expect string
+}
+
+// DirectiveSamples covers every entry of soyjs.PrintDirectives.
+var DirectiveSamples = map[string]dirSample{
+	"insertWordBreaks":  {"'1234567'", ":3", "123<wbr>456<wbr>7"},
+	"changeNewlineToBr": {"'a\\nb'", "", "a<br>b"},
+	"truncate":          {"'Lorem Ipsum'", ":8", "Lorem..."},
+	"id":                {"'x<y'", "", "x<y"},
+	"noAutoescape":      {"'x<y'", "", "x<y"},
+	"escapeHtml":        {"'<a>'", "", "&lt;a&gt;"},
+	"escapeUri":         {"'a b'", "", "a%20b"},
+	"escapeJsString":    {"'a\\'b'", "", `a\x27b`},
+	"bidiSpanWrap":      {"'abc'", "", "*"},
+	"bidiUnicodeWrap":   {"'abc'", "", "*"},
+	"json":              {"'a\"b'", "", `"a\"b"`},
+}
+
+var libraryUses = []string{"print", "operand", "argument", "directive-arg", "if-cond", "let", "param", "list-item"}
+
+func libProgram(id int, pos, class, frag, exp string, any bool, w wrapper, needOne bool) *Program {
+	g := &gen{ns: nsFor(id), params: map[string]bool{}, data: map[string]interface{}{}, globals: map[string]interface{}{}}
+	if needOne {
+		g.use("one", 1)
+	}
+	if strings.Contains(frag, ".echo") {
+		g.needEcho = true
+	}
+	body, exp := w.apply(frag, exp, g)
+	p := assemble(id, g, pos, class, w.name, pos, body, exp)
+	p.JSOnly, p.AnyOutput = true, any
+	return p
+}
+
+// BuildFunc uses the Soy function `name` in one syntactic role.
+func BuildFunc(id int, name, use string, w wrapper) (*Program, bool) {
+	s, ok := FuncSamples[name]
+	if !ok {
+		return nil, false
+	}
+	any := s.expect == ""
+	e := s.call
+	var frag, exp string
+	switch use {
+	case "print":
+		frag, exp = "{"+e+"}", s.expect
+	case "operand":
+		frag, exp = "{'[' + "+e+" + ']'}{"+e+" == "+e+" ? '=' : '#'}", "["+s.expect+"]="
+	case "argument":
+		frag, exp = "{isNonnull("+e+") ? 'nn' : 'null'}{strContains('' + "+e+", '"+s.expect+"') ? '+' : '-'}", "nn+"
+	case "directive-arg":
+		frag, exp = "{'v' |verifArg:"+e+"}", s.expect
+	case "if-cond":
+		frag, exp = "{if "+e+"}t{else}f{/if}{if not "+e+"}n{/if}", map[bool]string{true: "t", false: "fn"}[s.truthy]
+	case "let":
+		frag, exp = "{let $fv: "+e+"/}{$fv}", s.expect
+	case "param":
+		frag, exp = "{call .echo}{param p: "+e+"/}{/call}", s.expect
+	case "list-item":
+		frag, exp = "{foreach $fi in ["+e+", 'z']}{$fi}{/foreach}", s.expect+"z"
+	default:
+		return nil, false
+	}
+	if any && use != "print" && use != "let" {
+		return nil, false
+	}
+	return libProgram(id, "func-"+name+"-"+use, "js-function", frag, exp, any, w, strings.Contains(e, "$one")), true
+}
+
+// BuildDirective uses the print directive `name`: alone, after and before other
+// directives, with an expression argument, on a variable.
+func BuildDirective(id int, name, use string, w wrapper) (*Program, bool) {
+	d, ok := DirectiveSamples[name]
+	if !ok {
+		return nil, false
+	}
+	any := d.expect == "*"
+	var frag, exp string
+	needOne := false
+	switch use {
+	case "alone":
+		frag, exp = "{"+d.value+" |"+name+d.args+"}", d.expect
+	case "after-marker":
+		frag, exp = "{"+d.value+" |noAutoescape |"+name+d.args+"}", d.expect
+	case "before-marker":
+		frag, exp = "{"+d.value+" |"+name+d.args+" |id}", d.expect
+	case "expr-arg":
+		if d.args == "" {
+			return nil, false
+		}
+		frag, exp = "{"+d.value+" |"+name+d.args+" + $one - 1}", d.expect
+		needOne = true
+	case "in-let":
+		frag, exp = "{let $dv}{"+d.value+" |"+name+d.args+"}{/let}{$dv}", d.expect
+	case "in-msg":
+		frag, exp = `{msg desc="d"}<{`+d.value+" |"+name+d.args+`}>{/msg}`, "<"+d.expect+">"
+	default:
+		return nil, false
+	}
+	if any {
+		exp = ""
+	}
+	return libProgram(id, "directive-"+name+"-"+use, "js-directive", frag, exp, any, w, needOne), true
+}
+
+var directiveUses = []string{"alone", "after-marker", "before-marker", "expr-arg", "in-let", "in-msg"}
+
+// BuildAutoescaped prints a parameter in a template that is autoescaped by
+// default (no autoescape attribute anywhere): the generated code calls the
+// escaping library function although no directive is written.
+func BuildAutoescaped(id int) *Program {
+	ns := nsFor(id)
+	return &Program{ID: id, NS: ns, Pos: "autoescape-on", Class: "autoescape-on", Wrap: "top", S: "autoescape-on", Expect: "&lt;a&gt;|<a>",
+		File:      core.File{Name: ns + ".soy", Text: "{namespace " + ns + "}\n\n/** @param x */\n{template .main}{$x}|{$x |noAutoescape}{/template}\n"},
+		Data:      map[string]interface{}{"x": "<a>"},
+		Templates: []string{ns + ".main"}}
 }
